@@ -45,8 +45,8 @@ Fixpoint dom_walk (w : world) (regs : list reginfo) (ops : list op) : bool :=
       op_lang o && clone_ok w o && op_dyn w regs o ob && dom_walk (fst (step w o)) (track w regs o ob) ops'
   end.
 (* The domain of the theorems:
-   - operations of the covered sub-language (no local metrics, timers, OpDrop, OpCustom), const
-     labels given as maps (distinct keys), registries not cloned;
+   - no OpCustom (the spec assumes library collectors), const labels given as maps (distinct
+     keys), registries not cloned;
    - a registration the model accepts finds the same-name descriptors of the registry compatible
      (same help and same label names - what the dimension hash enforces absent an FNV collision -
      with the same names being constant labels);
@@ -104,56 +104,74 @@ Proof.
 Qed.
 
 (* ====================================================================================== *)
-(* Tracked registries.                                                                     *)
+(* Tracked registries, seen through a ghost slot table.                                    *)
 (* ====================================================================================== *)
-Definition cof (w : world) (s : nat) : collector := cofh (slot w s).
-Definition reg_of (w : world) (x : reginfo) : option (regcore collector) :=
-  match nth_error (w_slots w) (ri_slot x) with
-  | Some (HRegistry ri) => nth_error (w_reg w) ri
-  | _ => None
-  end.
-Definition RI1 (w : world) (x : reginfo) : Prop :=
-  exists rc, reg_of w x = Some rc
+(* OpDrop may overwrite the handle of a registered collector or of a registry with HDead while the
+   registry keeps the collector.  The ghost table [gs] is the slot table in which collector and
+   registry handles are never overwritten; the spec's bookkeeping (member slots, registry slots) is
+   related to the world through it. *)
+Definition gslot (gs : list handle) (s : nat) : handle := nth s gs HDead.
+Definition grel (g h : handle) : Prop := h = g \/ (stable g = true /\ h = HDead).
+Definition GI (gs : list handle) (w : world) : Prop :=
+  Forall2 grel gs (w_slots w) /\ Forall (slotwf w) gs /\ regslots gs = seq 0 (length (w_reg w)).
+Definition cof (gs : list handle) (s : nat) : collector := cofh (gslot gs s).
+Definition reg_of (gs : list handle) (w : world) (x : reginfo) : option (regcore collector) :=
+  match gslot gs (ri_slot x) with HRegistry ri => nth_error (w_reg w) ri | _ => None end.
+Definition RI1 (gs : list handle) (w : world) (x : reginfo) : Prop :=
+  exists rc, reg_of gs w x = Some rc
     /\ r_prefix rc = ri_prefix x /\ r_labels rc = option_map (@amap_of str) (ri_labels x)
-    /\ Permutation (map snd (r_collectors rc)) (map (cof w) (ri_members x))
-    /\ Forall (fun s => (s < length (w_slots w))%nat /\ is_coll (slot w s) = true) (ri_members x).
-Definition RI (w : world) (regs : list reginfo) : Prop := Forall (RI1 w) regs.
-Definition Tracked (w : world) (regs : list reginfo) : Prop :=
-  forall s ri, nth_error (w_slots w) s = Some (HRegistry ri) -> exists x, In x regs /\ ri_slot x = s.
+    /\ Permutation (map snd (r_collectors rc)) (map (cof gs) (ri_members x))
+    /\ Forall (fun s => is_coll (gslot gs s) = true) (ri_members x).
+Definition RI (gs : list handle) (w : world) (regs : list reginfo) : Prop := Forall (RI1 gs w) regs.
+Definition Tracked (gs : list handle) (regs : list reginfo) : Prop :=
+  forall s ri, gslot gs s = HRegistry ri -> exists x, In x regs /\ ri_slot x = s.
+(* two ghost tables agree on the handles that matter *)
+Definition sagree (gs gs' : list handle) : Prop :=
+  (length gs <= length gs')%nat
+  /\ (forall s, stable (gslot gs s) = true -> gslot gs' s = gslot gs s)
+  /\ (forall s, (s < length gs)%nat -> stable (gslot gs' s) = true -> gslot gs' s = gslot gs s).
 
-Lemma slot_prefix w w' s : prefix (w_slots w) (w_slots w') -> (s < length (w_slots w))%nat -> slot w' s = slot w s.
-Proof. intros [c E] H. unfold slot. rewrite E. apply app_nth1. exact H. Qed.
+Lemma gslot_lt gs s : gslot gs s <> HDead -> (s < length gs)%nat.
+Proof.
+  intros H. destruct (Nat.ltb s (length gs)) eqn:E; [apply Nat.ltb_lt; auto|]. apply Nat.ltb_ge in E.
+  unfold gslot in H. rewrite nth_overflow in H by lia. congruence.
+Qed.
+Lemma stable_not_dead h : stable h = true -> h <> HDead.
+Proof. intros H E. subst. discriminate. Qed.
+Lemma gslot_nth gs s h : nth_error gs s = Some h -> gslot gs s = h.
+Proof. intros H. unfold gslot. apply nth_error_nth. exact H. Qed.
+Lemma gslot_nth_error gs s : (s < length gs)%nat -> nth_error gs s = Some (gslot gs s).
+Proof. intros H. unfold gslot. destruct (nth_error gs s) eqn:E; [rewrite (nth_error_nth _ _ _ E); auto|]. apply nth_error_None in E. lia. Qed.
+Lemma gslot_snoc_old gs h s : (s < length gs)%nat -> gslot (gs ++ [h]) s = gslot gs s.
+Proof. intros H. unfold gslot. apply app_nth1. exact H. Qed.
+Lemma gslot_snoc_new gs h : gslot (gs ++ [h]) (length gs) = h.
+Proof. unfold gslot. rewrite app_nth2 by lia. rewrite Nat.sub_diag. reflexivity. Qed.
+
 Lemma slot_nth w s h : nth_error (w_slots w) s = Some h -> slot w s = h.
 Proof. intros H. unfold slot. apply nth_error_nth. exact H. Qed.
-Lemma slot_coll_lt w s : is_coll (slot w s) = true -> (s < length (w_slots w))%nat.
+Lemma GI_len gs w : GI gs w -> length gs = length (w_slots w).
+Proof. intros (F & _). clear -F. induction F; cbn; auto. Qed.
+Lemma GI_rel gs w s : GI gs w -> grel (gslot gs s) (slot w s).
 Proof.
-  intros H. destruct (Nat.ltb s (length (w_slots w))) eqn:E; [apply Nat.ltb_lt; auto|]. apply Nat.ltb_ge in E.
-  unfold slot in H. rewrite nth_overflow in H by lia. discriminate.
+  intros (F & _). unfold gslot, slot. pose proof (Forall2_nth _ _ _ s F) as X.
+  destruct (nth_error gs s) as [g|] eqn:E1; destruct (nth_error (w_slots w) s) as [h|] eqn:E2; try tauto.
+  - rewrite (nth_error_nth _ _ _ E1), (nth_error_nth _ _ _ E2). exact X.
+  - apply nth_error_None in E1, E2. rewrite !nth_overflow by lia. left. reflexivity.
+Qed.
+Lemma GI_real gs w s : GI gs w -> stable (slot w s) = true -> gslot gs s = slot w s.
+Proof. intros G H. destruct (GI_rel gs w s G) as [E|[_ E]]; [auto|]. rewrite E in H. discriminate. Qed.
+Lemma GI_wf gs w s : GI gs w -> slotwf w (gslot gs s).
+Proof.
+  intros (_ & F & _). unfold gslot. destruct (nth_error gs s) as [g|] eqn:E.
+  - rewrite (nth_error_nth _ _ _ E). rewrite Forall_forall in F. apply F. eapply nth_error_In; eauto.
+  - apply nth_error_None in E. rewrite nth_overflow by lia. exact I.
+Qed.
+Lemma slotwf_frame w w' h : frame w w' -> slotwf w h -> slotwf w' h.
+Proof.
+  intros ((PV & PH & PC) & Lr). cbn in PV, PH, PC. apply prefix_length in PV, PH, PC. rewrite !map_length in PV, PH, PC.
+  destruct h; cbn; auto; lia.
 Qed.
 
-Lemma RI1_frame w w' x : prefix (w_slots w) (w_slots w') ->
-  (forall ri rc, nth_error (w_reg w) ri = Some rc -> nth_error (w_reg w') ri = Some rc) -> RI1 w x -> RI1 w' x.
-Proof.
-  intros P Hr (rc & Er & Ep & El & Pm & Fm). exists rc. unfold reg_of in *.
-  destruct (nth_error (w_slots w) (ri_slot x)) as [h|] eqn:E; [|discriminate]. rewrite (prefix_nth _ _ _ _ P E).
-  destruct h; try discriminate. split; [apply Hr; auto|]. split; auto. split; auto. split.
-  - replace (map (cof w') (ri_members x)) with (map (cof w) (ri_members x)); auto. apply map_ext_in. intros s Hs.
-    rewrite Forall_forall in Fm. unfold cof. rewrite (slot_prefix w w' s P); auto. apply Fm; auto.
-  - eapply Forall_impl; [|exact Fm]. intros s [A B]. rewrite (slot_prefix w w' s P A). split; auto.
-    pose proof (prefix_length _ _ P). lia.
-Qed.
-Lemma Tracked_same w w' regs : w_slots w' = w_slots w -> Tracked w regs -> Tracked w' regs.
-Proof. intros E T s ri. rewrite E. apply T. Qed.
-Lemma Tracked_push w w' regs h : w_slots w' = w_slots w ++ [h] -> not_registry h -> Tracked w regs -> Tracked w' regs.
-Proof.
-  intros E Nr T s ri H. rewrite E in H. destruct (Nat.ltb s (length (w_slots w))) eqn:El.
-  - apply Nat.ltb_lt in El. rewrite nth_error_app1 in H by auto. eapply T; eauto.
-  - apply Nat.ltb_ge in El. rewrite nth_error_app2 in H by auto. destruct (s - length (w_slots w))%nat as [|k]; cbn in H.
-    + inversion H. exfalso. eapply Nr; eauto.
-    + destruct k; discriminate.
-Qed.
-
-(* registry handles are unique *)
 Lemma regslots_unique sl : NoDup (regslots sl) -> forall s s' r,
   nth_error sl s = Some (HRegistry r) -> nth_error sl s' = Some (HRegistry r) -> s = s'.
 Proof.
@@ -167,8 +185,114 @@ Proof.
   - inversion H2; subst h. cbn in ND. inversion ND; subst. exfalso. apply H3. eapply Hin; eauto.
   - f_equal. eapply IH; eauto.
 Qed.
-Lemma WI_reg_unique w s s' r : WI w -> nth_error (w_slots w) s = Some (HRegistry r) -> nth_error (w_slots w) s' = Some (HRegistry r) -> s = s'.
-Proof. intros W. apply regslots_unique. rewrite (wi_regslots _ W). apply seq_NoDup. Qed.
+Lemma GI_reg_unique gs w s s' r : GI gs w -> gslot gs s = HRegistry r -> gslot gs s' = HRegistry r -> s = s'.
+Proof.
+  intros (_ & _ & E) H1 H2. apply (regslots_unique gs) with (r := r).
+  - rewrite E. apply seq_NoDup.
+  - rewrite gslot_nth_error, H1; auto. apply gslot_lt. rewrite H1. discriminate.
+  - rewrite gslot_nth_error, H2; auto. apply gslot_lt. rewrite H2. discriminate.
+Qed.
+
+Lemma sagree_refl gs : sagree gs gs.
+Proof. split; [lia|]. split; auto. Qed.
+Lemma RI1_frame gs gs' w w' x : sagree gs gs' ->
+  (forall ri rc, nth_error (w_reg w) ri = Some rc -> nth_error (w_reg w') ri = Some rc) -> RI1 gs w x -> RI1 gs' w' x.
+Proof.
+  intros (_ & Sf & _) Hr (rc & Er & Ep & El & Pm & Fm). exists rc. unfold reg_of in *.
+  destruct (gslot gs (ri_slot x)) eqn:E; try discriminate. rewrite (Sf (ri_slot x)) by (rewrite E; reflexivity). rewrite E.
+  split; [apply Hr; auto|]. split; auto. split; auto.
+  assert (Hm : forall s, In s (ri_members x) -> gslot gs' s = gslot gs s).
+  { intros s Hs. rewrite Forall_forall in Fm. apply Sf. unfold stable. rewrite (Fm s Hs). reflexivity. }
+  split.
+  - replace (map (cof gs') (ri_members x)) with (map (cof gs) (ri_members x)); auto. apply map_ext_in. intros s Hs.
+    unfold cof. rewrite (Hm s Hs). reflexivity.
+  - apply Forall_forall. intros s Hs. rewrite (Hm s Hs). rewrite Forall_forall in Fm. auto.
+Qed.
+Lemma Tracked_frame gs gs' regs : sagree gs gs' -> (forall s, (length gs <= s)%nat -> is_reg (gslot gs' s) = false) ->
+  Tracked gs regs -> Tracked gs' regs.
+Proof.
+  intros (_ & _ & Sb) Hn T s ri H. destruct (Nat.ltb s (length gs)) eqn:E.
+  - apply Nat.ltb_lt in E. apply (T s ri). rewrite <- (Sb s E); auto. rewrite H. reflexivity.
+  - apply Nat.ltb_ge in E. specialize (Hn s E). rewrite H in Hn. discriminate.
+Qed.
+
+(* ---------- the ghost follows the slot table ---------- *)
+Lemma GI_frame_wf gs w w' : frame w w' -> Forall (slotwf w) gs -> Forall (slotwf w') gs.
+Proof. intros F H. eapply Forall_impl; [|exact H]. intros h. apply slotwf_frame; auto. Qed.
+Lemma ghost_same gs w w' : GI gs w -> frame w w' -> w_reg w' = w_reg w -> w_slots w' = w_slots w -> GI gs w'.
+Proof. intros (A & B & C) F R Sl. split; [rewrite Sl; auto|]. split; [eapply GI_frame_wf; eauto|rewrite R; auto]. Qed.
+Lemma ghost_push gs w w' h : GI gs w -> frame w w' -> w_reg w' = w_reg w -> w_slots w' = w_slots w ++ [h] ->
+  not_registry h -> slotwf w' h -> GI (gs ++ [h]) w'.
+Proof.
+  intros (A & B & C) F R Sl Nr Hs. split; [|split].
+  - rewrite Sl. apply Forall2_app; auto. constructor; [left; reflexivity|constructor].
+  - apply Forall_app. split; [eapply GI_frame_wf; eauto|constructor; auto].
+  - rewrite regslots_app, C, R. destruct h; cbn; try apply app_nil_r. exfalso. eapply Nr; eauto.
+Qed.
+Lemma sagree_push gs h : sagree gs (gs ++ [h]).
+Proof.
+  split; [rewrite app_length; lia|]. split.
+  - intros s H. apply gslot_snoc_old. apply gslot_lt. apply stable_not_dead. exact H.
+  - intros s Hl _. apply gslot_snoc_old. exact Hl.
+Qed.
+Lemma Forall2_list_set_r {A B} (R : A -> B -> Prop) l l' s g y :
+  Forall2 R l l' -> nth_error l s = Some g -> R g y -> Forall2 R l (list_set l' s y).
+Proof.
+  intros F; revert s; induction F as [|a b l l' Hab F IH]; intros s; destruct s; cbn; try discriminate.
+  - intros H Hr. inversion H; subst. constructor; auto.
+  - intros H Hr. constructor; auto.
+Qed.
+Lemma Forall2_list_set_both {A B} (R : A -> B -> Prop) l l' s x y :
+  Forall2 R l l' -> R x y -> Forall2 R (list_set l s x) (list_set l' s y).
+Proof.
+  intros F; revert s; induction F as [|a b l l' Hab F IH]; intros s Hr; destruct s; cbn; try constructor; auto.
+Qed.
+Lemma regslots_list_set gs s g h' : nth_error gs s = Some g -> is_reg g = false -> is_reg h' = false ->
+  regslots (list_set gs s h') = regslots gs.
+Proof.
+  revert s; induction gs as [|a gs IH]; intros s; destruct s; cbn [list_set nth_error]; try discriminate.
+  - intros H Hg Hh. inversion H; subst. destruct g, h'; cbn in *; try discriminate; reflexivity.
+  - intros H Hg Hh. change (a :: list_set gs s h') with ([a] ++ list_set gs s h'). change (a :: gs) with ([a] ++ gs).
+    rewrite !regslots_app. f_equal. eapply IH; eauto.
+Qed.
+Lemma gslot_list_set_eq gs s h : (s < length gs)%nat -> gslot (list_set gs s h) s = h.
+Proof. intros H. apply gslot_nth. apply nth_list_set_eq. exact H. Qed.
+Lemma gslot_list_set_neq gs s s' h : s <> s' -> gslot (list_set gs s h) s' = gslot gs s'.
+Proof. intros H. unfold gslot. rewrite !(nth_error_nth' _ HDead) || idtac. destruct (nth_error gs s') eqn:E.
+  - rewrite (nth_error_nth _ _ _ E). apply nth_error_nth. rewrite nth_list_set_neq; auto.
+  - assert (E' : nth_error (list_set gs s h) s' = None) by (rewrite nth_list_set_neq; auto).
+    apply nth_error_None in E, E'. rewrite !nth_overflow by lia. reflexivity.
+Qed.
+Lemma stable_split h : stable h = false -> is_coll h = false /\ is_reg h = false.
+Proof. unfold stable. apply orb_false_iff. Qed.
+Lemma ghost_put gs w w' s h0 h' : GI gs w -> WI w' -> frame w w' -> w_reg w' = w_reg w ->
+  nth_error (w_slots w) s = Some h0 -> w_slots w' = list_set (w_slots w) s h' -> h0 <> HDead -> stable h' = false ->
+  (stable h0 = false \/ h' = HDead) ->
+  exists gs', GI gs' w' /\ sagree gs gs' /\ length gs' = length gs.
+Proof.
+  intros G W' F R En Sl Hn Hst Hd. pose proof G as (A & B & C). pose proof (GI_len _ _ G) as Hlen.
+  assert (Hs : (s < length gs)%nat) by (rewrite Hlen; apply nth_error_Some; congruence).
+  pose proof (gslot_nth_error gs s Hs) as Eg. set (g := gslot gs s) in *.
+  assert (Hrel : grel g h0) by (pose proof (GI_rel gs w s G) as X; rewrite (slot_nth _ _ _ En) in X; exact X).
+  assert (Hw' : slotwf w' h').
+  { pose proof (wi_slots _ W') as Ws. rewrite Forall_forall in Ws. apply Ws. rewrite Sl. eapply nth_error_In.
+    apply nth_list_set_eq. apply nth_error_Some. congruence. }
+  destruct (stable g) eqn:Sg.
+  - exists gs. split; [|split; [apply sagree_refl|reflexivity]]. split; [|split; [eapply GI_frame_wf; eauto|rewrite R; auto]].
+    rewrite Sl. eapply Forall2_list_set_r; eauto. destruct Hrel as [E|[_ E]]; [|congruence]. subst h0. right. split; auto.
+    destruct Hd as [Hd|Hd]; [congruence|auto].
+  - destruct Hrel as [E|[E _]]; [|congruence]. subst h0. destruct (stable_split _ Sg) as [Sc Sr]. destruct (stable_split _ Hst) as [Sc' Sr'].
+    exists (list_set gs s h'). split; [|split].
+    + split; [|split].
+      * rewrite Sl. apply Forall2_list_set_both; auto. left. reflexivity.
+      * apply Forall_forall. intros x Hx. apply In_list_set in Hx as [Hx|Hx]; [|subst; auto].
+        pose proof (GI_frame_wf gs w w' F B) as B'. rewrite Forall_forall in B'. auto.
+      * rewrite (regslots_list_set gs s g h'), R; auto.
+    + split; [rewrite list_set_length; lia|]. split.
+      * intros s' H. destruct (Nat.eq_dec s s') as [<-|Ne]; [fold g in H; congruence|]. apply gslot_list_set_neq; auto.
+      * intros s' _ H. destruct (Nat.eq_dec s s') as [<-|Ne]; [rewrite gslot_list_set_eq in H by auto; congruence|]. apply gslot_list_set_neq; auto.
+    + apply list_set_length.
+Qed.
 
 Lemma ri_find_some r regs x : ri_find r regs = Some x -> In x regs /\ ri_slot x = r.
 Proof.
@@ -203,22 +327,10 @@ Proof.
     + destruct (IH ND' H) as (l1 & l2 & -> & En). exists ((k', c') :: l1), l2. cbn. rewrite En. auto.
 Qed.
 
-(* the three registry operations on a tracked registry *)
-Lemma RI_newreg w p l r regs : WI w -> RI w regs -> r = mkReg [] [] [] (option_map (@amap_of str) l) p ->
-  RI (push_slot (set_reg w (w_reg w ++ [r])) (HRegistry (length (w_reg w)))) (mkRI (length (w_slots w)) p l [] :: regs).
+(* a changed registry does not disturb the others *)
+Lemma RI_setreg_other gs w ri rc' x : RI1 gs w x -> gslot gs (ri_slot x) <> HRegistry ri ->
+  RI1 gs (set_reg w (list_set (w_reg w) ri rc')) x.
 Proof.
-  intros W R Er. constructor.
-  - exists r. unfold reg_of. cbn [ri_slot push_slot set_slots set_reg w_slots w_reg].
-    rewrite nth_error_app2 by lia. rewrite Nat.sub_diag. cbn [nth_error]. rewrite nth_error_app2 by lia. rewrite Nat.sub_diag. cbn.
-    rewrite Er. cbn. repeat split; auto.
-  - eapply Forall_impl; [|exact R]. intros x. apply RI1_frame.
-    + cbn. apply prefix_snoc.
-    + intros ri rc H. cbn. rewrite nth_error_app1; auto. apply nth_error_Some. congruence.
-Qed.
-Lemma RI_setreg_other w ri rc' x : WI w -> RI1 w x -> (forall rc, reg_of w x = Some rc -> nth_error (w_slots w) (ri_slot x) <> Some (HRegistry ri)) ->
-  RI1 (set_reg w (list_set (w_reg w) ri rc')) x.
-Proof.
-  intros W (rc & Er & Rest) Hn. exists rc. split; [|exact Rest]. unfold reg_of in *. cbn [set_reg w_slots w_reg].
-  destruct (nth_error (w_slots w) (ri_slot x)) as [h|] eqn:E; [|discriminate]. destruct h; try discriminate.
-  rewrite nth_list_set_neq; auto. intros ->. eapply Hn; eauto.
+  intros (rc & Er & Rest) Hn. exists rc. split; [|exact Rest]. unfold reg_of in *. cbn [set_reg w_reg].
+  destruct (gslot gs (ri_slot x)); try discriminate. rewrite nth_list_set_neq; auto.
 Qed.
